@@ -66,10 +66,13 @@ for it in range(N):
     evals += 1
     # Rebalance scaled to the notional set by SetNotional, including a zero notional (go flat)
     nv = pd.Series([1e6, 1e6, 2e6, 0.0, 5e5, 5e5, 5e5, 5e5][:n], index=idx)
+    if rs.rand() < 0.5:      # a schedule kept on its own calendar (longer history, weekend rows): it is read by date
+        extra_idx = pd.date_range(idx[0] - pd.Timedelta(days=5), idx[-1], freq="D")
+        nv = pd.Series(7e5, index=extra_idx).where(~extra_idx.isin(idx), nv.reindex(extra_idx))
     st2 = FixedIncomeStrategy("r", [A.WeighSpecified(cp=-0.4, fi=0.6), A.SetNotional("nv"), A.Rebalance()], children=[CouponPayingSecurity("fi"), CouponPayingSecurity("cp")])
     t = bt.Backtest(st2, data[["fi", "cp"]], additional_data={"coupons": coup[["fi", "cp"]], "nv": nv}, integer_positions=False); t.run(); evals += 1
     for d in range(n):
-        tot = float(nv.iloc[d]); got = t.strategy.notional_values.loc[idx[d]]
+        tot = float(nv.loc[idx[d]]); got = t.strategy.notional_values.loc[idx[d]]
         if abs(float(got) - tot) > 1e-6: bad("rebalance-scales-to-SetNotional", date=str(idx[d].date()), got=got, want=tot)
     # renormalised result: the index moves additively by PAR x (change in value net of THAT date's flows) / normalising value, with
     # capital flows on the first date (initial capital) and during the run
